@@ -219,6 +219,42 @@ def check_from_algmod(prog, rep, c):
                         verdict = ("bad", n)
                     elif full <= 1:
                         verdict = ("ok", n)
+        if verdict is None:
+            # the doubling may be applied to the linkage matrix itself, in place, for the off-diagonal blocks: `if cst != rst: D *= 2.0`
+            dbl2 = {n.target.id for n in ast.walk(lp) if isinstance(n, ast.AugAssign) and isinstance(n.op, ast.Mult) and isinstance(n.target, ast.Name)
+                    and isinstance(n.value, ast.Constant) and n.value.value in (2, 2.0)}
+            if dbl2:
+                dep = set(dbl2)
+                for _ in range(4):
+                    for n in ast.walk(lp):
+                        if isinstance(n, ast.Assign) and len(n.targets) == 1 and isinstance(n.targets[0], ast.Name) and any(isinstance(x, ast.Name) and x.id in dep for x in ast.walk(n.value)):
+                            dep.add(n.targets[0].id)
+                for n in ast.walk(lp):
+                    if isinstance(n, ast.AugAssign) and isinstance(n.op, ast.Add) and isinstance(n.target, ast.Subscript) and isinstance(n.target.value, ast.Name) \
+                            and any(isinstance(x, ast.Name) and x.id in dep for x in ast.walk(n.value)):
+                        sl = list(n.target.slice.elts) if isinstance(n.target.slice, ast.Tuple) else [n.target.slice]
+                        al = defs.get(n.target.value.id, [None])[0]
+                        full = None
+                        if isinstance(al, ast.Call) and (prog.dotted(f.module, al.func) or "") in ("numpy.zeros", "numpy.empty", "numpy.full", "numpy.ones") and al.args:
+                            shp = al.args[0]
+                            if isinstance(shp, ast.Name) and len(defs.get(shp.id, [])) == 1:
+                                shp = defs[shp.id][0]
+                            if isinstance(shp, ast.Tuple) and not any(isinstance(e, (ast.Starred, ast.Slice)) for e in list(shp.elts) + sl):
+                                full = len(shp.elts) - len(sl)
+                        if full is None:
+                            continue
+                        # is what is accumulated symmetrised (M + M.T)?  look at the definition of the accumulated value
+                        vtxt = dump(n.value)
+                        for x in ast.walk(n.value):
+                            if isinstance(x, ast.Name) and x.id in dep:
+                                for d_ in ast.walk(lp):
+                                    if isinstance(d_, ast.Assign) and isinstance(d_.targets[0], ast.Name) and d_.targets[0].id == x.id:
+                                        vtxt += " " + dump(d_.value)
+                        symmetrised = ".T" in vtxt and "+" in vtxt and vtxt.count("@") >= 2
+                        if full >= 2 and not symmetrised:
+                            verdict = ("bad", n)
+                        elif full <= 1:
+                            verdict = ("ok", n)
         if verdict and verdict[0] == "bad":
             rep.violate("R2-tiling", construct, "column blocks are visited only up to the row block and the (trait x trait) contribution M of an off-diagonal block is doubled; "
                         "its mirror block contributes M' (transpose), so between-trait covariances depend on the chunk size", where(f, verdict[1]),
